@@ -331,11 +331,12 @@ def retry_case(draw):
                      'timeout': T, 'reply': reply})
     if draw(st.sampled_from([False, False, True])):
         # the same expectation again, shortly after an earlier request with it was answered (before that one's timeout has passed)
-        quick = [r for r in reqs if r['expected'] and r['reply'] and r['reply']['lost'] == 0 and r['reply']['delay'] <= 0.05]
+        # (also when that one had to be repeated before it was answered)
+        quick = [r for r in reqs if r['expected'] and r['reply'] and r['reply']['lost'] <= 2 and r['reply']['delay'] <= 0.05]
         if quick:
             base = quick[draw(st.integers(0, len(quick) - 1))]
             i = len(reqs)
-            reqs.append({'t': base['t'] + draw(st.sampled_from([0.06, 0.1, 0.15])), 'port': base['port'], 'channel': base['channel'],
+            reqs.append({'t': base['t'] + base['reply']['lost'] * base['timeout'] + draw(st.sampled_from([0.06, 0.1, 0.15])), 'port': base['port'], 'channel': base['channel'],
                          'data': list(base['expected']) + [0x50, i], 'expected': list(base['expected']), 'timeout': base['timeout'], 'after': reqs.index(base),
                          'reply': draw(st.sampled_from([None, {'lost': 0, 'delay': 0.3, 'tail': [0xD0]}, {'lost': 1, 'delay': 0.01, 'tail': [0xD1]}]))})
     if draw(st.sampled_from([False, False, True])):
@@ -384,6 +385,32 @@ def retry_case(draw):
         sched['stalls'] = [{'kind': 'start', 'at': draw(st.integers(1, 10)), 'd': draw(st.sampled_from([0.05, 0.25, 0.25, 0.45, 1.1]))}]
     return {'needs_resending': draw(st.sampled_from([True, True, True, False])), 'requests': reqs, 'events': events, 'unrelated': unrelated,
             'tail': draw(st.sampled_from([0.5, 1.3, 2.6])), 'schedule': sched}
+
+
+def directed_cases(tier):
+    """(a) a request that needed 0..3 repetitions is answered and the same thing is asked again before another timeout has passed;
+    (b) a link error with a request pending, the application opens the link again from inside the notification"""
+    for lost in (0, 1, 2, 3):
+        for T in (0.2, 1.0):
+            for gap in (0.06, 0.1, 0.15):
+                for second in (None, {'lost': 0, 'delay': 0.3, 'tail': [0xD0]}, {'lost': 1, 'delay': 0.01, 'tail': [0xD1]}):
+                    base = {'t': 0.0, 'port': 2, 'channel': 1, 'data': [1, 5, 0x40, 0], 'expected': [1, 5], 'timeout': T,
+                            'reply': {'lost': lost, 'delay': 0.01, 'tail': [0xE0]}}
+                    again = {'t': lost * T + gap, 'port': 2, 'channel': 1, 'data': [1, 5, 0x50, 1], 'expected': [1, 5], 'timeout': T, 'after': 0, 'reply': second}
+                    yield {'needs_resending': True, 'requests': [base, again], 'events': [], 'unrelated': [], 'tail': 2.6,
+                           'schedule': {'prefix': [], 'seed': lost, 'rate': 0.0}}
+    for t_req in (0.0, 0.05):
+        for T in (0.2, 1.0):
+            for dt in (-0.1, -0.01, 0.0, 0.01):       # the error arrives around the moment the pending request is due again
+                for reopen_delay in (0.0, 0.05):
+                    for seed, rate in ((1, 0.0), (2, 0.3), (3, 0.3), (4, 0.6), (5, 0.6), (6, 0.9)):
+                        tc = round(t_req + T + dt, 4)
+                        pend = {'t': t_req, 'port': 2, 'channel': 1, 'data': [1, 5, 0x40, 0], 'expected': [1, 5], 'timeout': T, 'reply': None}
+                        later = {'t': tc + reopen_delay + 0.02, 'port': 2, 'channel': 1, 'data': [9, 0x70, 1], 'expected': [9], 'timeout': 0.2,
+                                 'reply': {'lost': 1, 'delay': 0.01, 'tail': [0xF0]}}
+                        yield {'needs_resending': True, 'requests': [pend, later],
+                               'events': [{'t': tc, 'kind': 'linkerror', 'reopen_in_cb': True}, {'t': tc + reopen_delay, 'kind': 'reopen', 'send_raises': False}],
+                               'unrelated': [], 'tail': 2.6, 'schedule': {'prefix': [], 'seed': seed, 'rate': rate}}
 
 
 # ---------------------------------------------------------------- driver level: nothing reaches the device through a closed USB link
@@ -486,4 +513,5 @@ usb_case = st.fixed_dictionaries({'steps': st.lists(_usb_step, min_size=1, max_s
 
 def subchecks(tier):
     return [Sub('timelines', run_retry, strategy=retry_case(), examples={'quick': 2000, 'thorough': 60000}),
+            Sub('directed', run_retry, cases=directed_cases, distinct_by_construction=True),
             Sub('usb-driver', run_usb, strategy=usb_case, examples={'quick': 300, 'thorough': 6000})]
